@@ -54,7 +54,8 @@ def r17_1(ctx, prog, crate):
     e1 = _same_item(b, spi.args[1], nx)
     ctx.check(e1, "R17.1", ["run_bench_entry", "index-of-loop-item"], "slice_ptr_index is not applied to the loop's current name", spi.line())
     # run_bench call: label = loop item; closure captures arg_index = spi result and the same runner
-    rb = [c for c in b.live_calls() if c.bb in lp["body"] and c.is_fn_trait_call and "run_bench_entry::{closure#" in c.name]
+    from .common import closure_of
+    rb = [c for c in b.live_calls() if c.bb in lp["body"] and c.is_fn_trait_call and closure_of(prog, crate, c.name, b.path)]
     if ctx.check(len(rb) == 1, "R17.1", ["run_bench_entry", "run_bench-call"], "run_bench calls in the loop: %d" % len(rb), b.where(lp["header"])):
         c = rb[0]
         tup = None
